@@ -298,11 +298,14 @@ func (txmp *TxMempool) allEntriesSorted() []*WrappedTx {
 	txmp.mtx.RLock()
 	defer txmp.mtx.RUnlock()
 
-	all := make([]*WrappedTx, 0, len(txmp.txByKey))
-	for _, tx := range txmp.txByKey {
-		all = append(all, tx.Value.(*WrappedTx))
+	// Collect the entries in list (arrival) order and sort them stably, so that
+	// entries with equal priority and equal timestamp keep their arrival order
+	// instead of the order of a map iteration.
+	all := make([]*WrappedTx, 0, txmp.txs.Len())
+	for e := txmp.txs.Front(); e != nil; e = e.Next() {
+		all = append(all, e.Value.(*WrappedTx))
 	}
-	sort.Slice(all, func(i, j int) bool {
+	sort.SliceStable(all, func(i, j int) bool {
 		if all[i].priority == all[j].priority {
 			return all[i].timestamp.Before(all[j].timestamp)
 		}
